@@ -1,12 +1,12 @@
-\* table mutators + migrations, no plans: 12,663 distinct / 1.15M generated, seconds on an idle machine
+\* table mutators + migrations (<= 1 at a time), plans on every table: 1,485 distinct / 199,522 generated, seconds on an idle machine
 SPECIFICATION Spec
 CONSTANTS
   Hs = {3}
   Ps = {2}
   Ss = {3}
-  Phases = {0, 1}
-  MaxMig = 2
-  PlanH = 0
+  Phases = {0, 1, 2}
+  MaxMig = 1
+  PlanH = 3
 VIEW View
 INVARIANTS TypeOK PlanExists
 PROPERTIES C20_VersionStrict C20_DvExact C20_CodecIdentity C20_PlanMovesOnce C20_PlanBounds C20_PlanSubject C20_PlanLiteral C20_ApplyMovesExactly C20_ApplySubject C20_ApplyLiteral C20_ApplySlotSet
